@@ -121,7 +121,11 @@ def _lc_job(job):
         adj, lits = _sym_adj(n)
         g = gr.Graph(adj)
         before = [[lits[i][j] for j in range(n)] for i in range(n)]
-        h = g.local_complemented(v)
+        try:
+            h = g.local_complemented(v)
+        except (AssertionError, TypeError, ValueError, AttributeError) as e:
+            ctx.prove("local_complemented must work on every graph (raised %s)" % type(e).__name__, 0)
+            return {}
         A = np.asarray(g.adjacency_matrix)
         ctx.prove("local_complemented leaves the receiver unchanged",
                   land_all([leq(_lit(A[i, j]), before[i][j]) for i in range(n) for j in range(n)]))
@@ -343,6 +347,13 @@ def replay(case):
                 if key in reps:
                     return True, "grouping of index %d repeats" % i
                 reps.append(key)
+                import itertools as _it
+                if groups and case["name"] != "1122s":
+                    for perm in list(_it.permutations(range(len(groups))))[:24]:
+                        listing = [list(reversed(groups[p])) for p in perm]
+                        b2 = frm(li.Repr([list(g) for g in listing]))
+                        if b2 != i:
+                            return True, "grouping %s of index %d, listed as %s, encodes to %s" % (groups, i, listing, b2)
             except Exception as e:
                 return True, "raised %r at %d" % (e, i)
         return False, "round trips fine"
